@@ -1,4 +1,7 @@
 pub mod c01;
 pub mod c02;
+pub mod c06;
+pub mod c07;
+pub mod c08;
 pub mod c14;
 pub mod c17;
